@@ -319,7 +319,13 @@ func resolveBatch(ctx context.Context, sources []interface{}, typ Type, selectio
 func resolveScalarBatch(sources []interface{}, typ *Scalar, destinations []*outputNode) error {
 	for i, source := range sources {
 		if typ.Unwrapper == nil {
-			destinations[i].Fill(unwrap(source))
+			value := unwrap(source)
+			// The bytes scalar is advertised as non-null. Like a nil list, which is
+			// rendered as [], a nil []byte is empty and not null.
+			if b, ok := value.([]byte); ok && b == nil {
+				value = []byte{}
+			}
+			destinations[i].Fill(value)
 			continue
 		}
 		res, err := typ.Unwrapper(source)
